@@ -244,6 +244,143 @@ def snapshot():
     return d
 
 
+class TablesFrame(Unit):
+    """Frame condition of the derived tables over the WHOLE package (closed world, like the lock scan of C12): no function
+    other than initglobals writes them - no subscript store / delete, no augmented assignment, no call of a mutating method
+    (setdefault, update, pop, append, ...) on any of the table names, under whatever alias they were imported.  "The
+    derived tables are exactly the projections of the version records" can only stay true if nobody else edits them
+    (seeded change C08-r10: `KNOWN_MINECRAFT_VERSIONS.setdefault(name)` in the version-mismatch helper).
+    A hit is a violation only if the scenario replay shows a table that differs from its projection; otherwise undecided."""
+    prop = 'C08'
+    name = 'C08.tables.frame'
+    int_mode = 'int'
+    functions = ('minecraft/**.py [closed-world scan: writers of the derived tables]',)
+    MUTATORS = {'append', 'extend', 'insert', 'remove', 'pop', 'clear', 'sort', 'reverse', 'update', 'setdefault', 'popitem',
+                'add', 'discard', 'move_to_end', '__setitem__', '__delitem__', 'difference_update', 'intersection_update',
+                'symmetric_difference_update'}
+
+    @staticmethod
+    def scan():
+        import ast as _ast
+        import os
+        root = os.path.dirname(minecraft.__file__)
+        names = set(TABLES) | {'KNOWN_MINECRAFT_VERSION_RECORDS'}
+        hits = []
+        for dp, _dn, fns in os.walk(root):
+            for fn in fns:
+                if not fn.endswith('.py'):
+                    continue
+                path = os.path.join(dp, fn)
+                try:
+                    tree = _ast.parse(open(path, encoding='utf-8').read(), path)
+                except SyntaxError:
+                    continue
+                alias = {}
+                for node in _ast.walk(tree):
+                    if isinstance(node, _ast.ImportFrom):
+                        for a in node.names:
+                            if a.name in names:
+                                alias[a.asname or a.name] = a.name
+                if os.path.samefile(path, minecraft.__file__):
+                    alias.update({n: n for n in names})
+
+                def table_of(e):
+                    if isinstance(e, _ast.Name) and e.id in alias:
+                        return alias[e.id]
+                    if isinstance(e, _ast.Attribute) and e.attr in names:
+                        return e.attr
+                    return None
+
+                def visit(node, fname):
+                    for child in _ast.iter_child_nodes(node):
+                        cf = fname
+                        if isinstance(child, (_ast.FunctionDef, _ast.AsyncFunctionDef)):
+                            cf = child.name if fname is None else fname + '.' + child.name
+                        elif isinstance(child, _ast.ClassDef):
+                            cf = child.name if fname is None else fname + '.' + child.name
+                        t = None
+                        if isinstance(child, (_ast.Assign, _ast.AugAssign, _ast.AnnAssign, _ast.Delete)):
+                            tg = child.targets if isinstance(child, (_ast.Assign, _ast.Delete)) else [child.target]
+                            for x in tg:
+                                if isinstance(x, _ast.Subscript) and table_of(x.value):
+                                    t = (table_of(x.value), 'item store/delete')
+                                elif isinstance(child, _ast.AugAssign) and table_of(x):
+                                    t = (table_of(x), 'augmented assignment')
+                        elif isinstance(child, _ast.Call) and isinstance(child.func, _ast.Attribute) and \
+                                child.func.attr in TablesFrame.MUTATORS and table_of(child.func.value):
+                            t = (table_of(child.func.value), '.%s()' % child.func.attr)
+                        if t is not None:
+                            inside_init = os.path.samefile(path, minecraft.__file__) and (fname or '').split('.')[0] == 'initglobals'
+                            # the record list is the public extension point: user code appends to it; library code may build it
+                            # at import (module level of minecraft/__init__.py) but must not edit it elsewhere
+                            at_import = os.path.samefile(path, minecraft.__file__) and fname is None
+                            if not inside_init and not at_import:
+                                hits.append('%s:%d in %s: %s on %s' % (os.path.relpath(path, os.path.dirname(root)), child.lineno,
+                                                                       fname or '<module>', t[1], t[0]))
+                        visit(child, cf)
+                visit(tree, None)
+        return hits
+
+    def run(self, I):
+        hits = self.scan()
+        I.E.check('frame.tables-written-by-initglobals-only', not hits, kind='frame',
+                  note='; '.join(hits[:4]) or 'no writer of a derived table outside initglobals')
+        return None
+
+    def replay(self, model, label):
+        return replay_tables_scenarios()
+
+    def bounded(self, rng, tier):
+        rp = replay_tables_scenarios()
+        return dict(name='C08.tables.scenarios', evaluations=rp['n'], bound='public operations that consult the tables (constructor '
+                    'with names / numbers, version-mismatch reports with known and unknown names, status handling), tables '
+                    'compared with the projection of the records after each',
+                    failures=[dict(call=rp['call'], observed=rp['observed'], witness='tables-frame')] if rp['confirmed'] else [])
+
+
+def replay_tables_scenarios():
+    """Operations of the library that READ the tables; afterwards every table must still be the projection of the records."""
+    from minecraft.networking.connection import Connection, PlayingStatusReactor
+    from pyvc.harness import native_call
+    spec = spec_tables(minecraft.KNOWN_MINECRAFT_VERSION_RECORDS)
+    n = 0
+
+    def differs():
+        now = snapshot()
+        for k in TABLES:
+            if now[k] != spec[k]:
+                extra = [x for x in (now[k].items() if isinstance(now[k], dict) else now[k]) if x not in
+                         (spec[k].items() if isinstance(spec[k], dict) else spec[k])]
+                return '%s is no longer the projection of the records (e.g. extra / changed entries %r)' % (k, extra[:3])
+        return None
+    steps = []
+    for name in ('1.8.9', '1.99-not-a-version', None, ''):
+        for proto in (47, 999999, None, 0):
+            steps.append(('Connection._version_mismatch(server_protocol=%r, server_version=%r)' % (proto, name),
+                          lambda proto=proto, name=name: Connection('h', 1)._version_mismatch(server_protocol=proto, server_version=name)))
+    for av in ({'1.8.9'}, {'no-such'}, {340, '1.12.2'}, None):
+        steps.append(('Connection(allowed_versions=%r)' % (av,), lambda av=av: Connection('h', 1, allowed_versions=av)))
+    for iv in ('1.12.2', 'bogus', 47, 5):
+        steps.append(('Connection(initial_version=%r)' % (iv,), lambda iv=iv: Connection('h', 1, initial_version=iv)))
+
+    def status(st):
+        c = Connection('h', 1, allowed_versions={340, 47})
+        c.connect = lambda: None
+        c.disconnect = lambda immediate=False: None
+        r = PlayingStatusReactor(c)
+        r.handle_status(st)
+    for st in ({'version': {'protocol': 5, 'name': 'weird-name'}}, {'version': {'name': 'x.y'}}, {'version': {'protocol': 47, 'name': '1.8.9'}}):
+        steps.append(('PlayingStatusReactor.handle_status(%r)' % (st,), lambda st=st: status(st)))
+    for what, fn in steps:
+        n += 1
+        native_call(fn)
+        bad = differs()
+        if bad:
+            minecraft.initglobals(use_known_records=True)
+            return dict(confirmed=True, n=n, call=what, observed=bad)
+    return dict(confirmed=False, n=n, call='%d table-reading operations' % n, observed='tables unchanged')
+
+
 class InitGlobalsBounded(Unit):
     """initglobals on generated record lists / extension histories (BOUNDED stand-in for init.known/derived/idempotent)."""
     prop = 'C08'
@@ -333,4 +470,4 @@ class InitGlobalsBounded(Unit):
 
 def units(tier):
     from . import c08_init
-    return c08_init.units(tier) + [OrderUnit(), Chronology(), InitGlobalsBounded()]
+    return c08_init.units(tier) + [OrderUnit(), Chronology(), InitGlobalsBounded(), TablesFrame()]
